@@ -277,17 +277,24 @@ func ruleStateless(c *Ctx, rule string, root *ssa.Function) {
 	}
 	var recv, globs, opq []string
 	posR, posG := "", ""
+	dup := map[string]bool{}
 	for _, m := range []map[string][]*effects.Effect{s.Writes, s.Appends} {
 		for _, l := range sortedStr(m) {
 			for _, e := range m[l] {
 				switch {
 				case effects.ParamIndex(l) == 0 && root.Signature.Recv() != nil:
-					recv = append(recv, l+": "+e.Chain())
+					if t := "receiver: " + e.Chain(); !dup[t] {
+						dup[t] = true
+						recv = append(recv, t)
+					}
 					if posR == "" {
 						posR = posOf(c, e)
 					}
 				case effects.GlobalName(l) != "":
-					globs = append(globs, effects.GlobalName(l)+": "+e.Chain())
+					if t := effects.GlobalName(l) + ": " + e.Chain(); !dup[t] {
+						dup[t] = true
+						globs = append(globs, t)
+					}
 					if posG == "" {
 						posG = posOf(c, e)
 					}
